@@ -76,3 +76,4 @@ def run(repo, res, tier):
     # a bare string stays one token when a long statement is wrapped: textwrap may break at white space only
     from .. import encrules as _enc17
     _enc17.rule_w1(repo, res, which=("flags",))
+    _hk17.rule_enc_classify(repo, res)
